@@ -228,6 +228,9 @@ class Verifier(Exec):
             self.valid_scalar_heap(leaves[''], u['elem'], True)
         elif self.kind(u['elem']) == 'struct' and not self.struct_fields(u['elem']):
             leaves = {}       # set: map[K]struct{}
+        elif self.kind(u['elem']) == 'struct':
+            # struct values: only membership and size are modelled; a value read from the map is arbitrary
+            leaves = None
         else:
             raise Unsupported('map value type %s' % u['elem'])
         hh = self.heap_get(st, 'MAPH:' + key, arr(ARR_IB))
@@ -252,6 +255,9 @@ class Verifier(Exec):
         if self.is_string(u['elem']):
             g = lambda s: ite(present, select(select(leaves[s], m.term), k), ZERO)
             return StrV(g('arr'), g('off'), g('len'))
+        if leaves is None:
+            self.ctx.notes.append('values of %s are not modelled (membership and size only)' % key)
+            return self.fresh_value('mapval', u['elem'], True, st.alloc)
         if not leaves:
             return StructV(u['elem'], {})
         zero = FALSE if self.is_bool(u['elem']) else ZERO
@@ -959,7 +965,13 @@ class Verifier(Exec):
                 if self.elem_key(x.elem) == 'uint8':
                     return self.copy_bytes_to_string(st, x)
                 # string([]rune): opaque encoding
-                return self.opaque_string(st, 'runes2str', [x.arr, x.off, x.len, select(self.heap_get(st, self.hs_name(x.elem), self.hs_sort(x.elem)), x.arr)])
+                r_ = self.opaque_string(st, 'runes2str', [x.arr, x.off, x.len, select(self.heap_get(st, self.hs_name(x.elem), self.hs_sort(x.elem)), x.arr)])
+                if 'nrunes' in self.specs.specfuncs:
+                    # string([]rune) has exactly one character per rune (invalid runes become U+FFFD, still one)
+                    h8_ = self.heap_get(st, 'HS:uint8', arr(ARR_II))
+                    self.ctx.declare_fun('sf:nrunes', [ARR_II, INT, INT], INT)
+                    self.ctx.assume(eq(app('sf:nrunes', (select(h8_, r_.arr), r_.off, r_.len), INT), x.len))
+                return r_
             if isinstance(x, T):
                 return self.opaque_string(st, 'rune2str', [x])
             raise Unsupported('convert to string from %r' % (x,))
@@ -1683,7 +1695,19 @@ class Verifier(Exec):
         return n
 
     def map_delete(self, st, m, k):
-        raise Unsupported('map delete')
+        if not isinstance(m, Opaque):
+            raise Unsupported('delete on %r' % (m,))
+        key, u, leaves, hh = self.map_heaps(st, m)
+        kt = self.map_key_term(st, u, k)
+        # deleting from a nil map is a no-op
+        if self.writable is not None:
+            self.oblige(st, 'frame', 'map:' + self.cur_detail, or_(eq(m.term, ZERO), *([eq(m.term, r[1]) for r in self.writable if r[0] == 'map'] + [ge(m.term, r[1]) for r in self.writable if r[0] == 'fresh'] + [TRUE for r in self.writable if r[0] == 'any'])))
+        present = select(select(hh, m.term), kt)
+        hn = self.heap_get(st, 'MAPN', ARR_II)
+        self.ctx.assume(implies(present, le(ONE, select(hn, m.term))))      # a map holding a key is not empty
+        st.heap['MAPN'] = store(hn, m.term, ite(present, sub(select(hn, m.term), ONE), select(hn, m.term)))
+        st.heap['MAPH:' + key] = store(hh, m.term, store(select(hh, m.term), kt, FALSE))
+        return None
 
     def do_append(self, st, ins, args):
         s, t = args
@@ -2171,7 +2195,9 @@ class Verifier(Exec):
         hn = self.heap_get(st, 'MAPN', ARR_II)
         st.heap['MAPN'] = store(hn, m.term, ite(present, select(hn, m.term), add(select(hn, m.term), ONE)))
         st.heap['MAPH:' + key] = store(hh, m.term, store(select(hh, m.term), kt, TRUE))
-        if self.is_string(u['elem']):
+        if leaves is None:
+            pass
+        elif self.is_string(u['elem']):
             for s in ('arr', 'off', 'len'):
                 nm = 'MAPV:%s.%s' % (key, s)
                 st.heap[nm] = store(leaves[s], m.term, store(select(leaves[s], m.term), kt, getattr(val_, s)))
